@@ -15,6 +15,7 @@ from ..quotebook import QuoteBook
 from .. import timegen
 
 NAME = "broker"
+ISOLATE = "fork"
 PROPS = ("C01", "C02", "C03", "C04", "C05", "C15")
 
 ASSETS = ["EQ:AAA", "EQ:BBB", "EQ:CCC", "EQ:DDD", "EQ:EEE", "EQ:FFF", "EQ:GGG", "EQ:HHH"]
